@@ -566,6 +566,21 @@ def f34():
     return bool(np.array_equal(ka, kb)), f"capital held: {ka[:3].tolist()} (plain index) / {kb[:3].tolist()} (categorical index)"
 
 
+@trigger("F35", ["C07", "C20"])
+def f35():
+    """a capital vector given as a plain list, with an industry that has no capital: an event elsewhere leaves finite values"""
+    tb = base_table()
+    regs, secs, cats = scen.labels(tb)
+    cfg0 = base_cfg()
+    K = [float(v) for v in capital_of(tb, cfg0)]
+    K[-1] = 0.0
+    cfg = base_cfg(capital={"kind": "ndarray", "values": K, "as_list": True})
+    ev = rec_event(tb, cfg0, frac=0.05, occ=1, dur=1, tau=3)
+    sim = run_loop(mk_sc(tb, cfg, [ev], T=5))
+    bad = bool(np.isnan(sim.production_realised.to_numpy(dtype=float)[:5]).any() or np.isnan(sim.production_capacity.to_numpy(dtype=float)[:5]).any())
+    return not bad, f"NaN recorded: {bad}"
+
+
 def run_all(props=None, only=None):
     res = {}
     for fid, t in TRIGGERS.items():
